@@ -190,3 +190,76 @@ pub fn all_enums() -> &'static [&'static EnumInfo] {
     static ALL: std::sync::OnceLock<Vec<&'static EnumInfo>> = std::sync::OnceLock::new();
     ALL.get_or_init(|| crate::props::enums_corpus::CORPUS.iter().chain(REALISTIC.iter()).collect())
 }
+
+// ---- variants that carry several mnemonics (aliases: POSitive|RISing select the same edge). The derive accepts repeated
+// `mnemonic = ...` entries and repeated #[scpi] attributes; every alias selects the variant, the variant reports one of them.
+#[derive(Copy, Clone, PartialEq, Debug, scpi_derive::ScpiEnum)]
+pub enum Edge {
+    #[scpi(mnemonic = b"POSitive", mnemonic = b"RISing")]
+    Pos,
+    #[scpi(mnemonic = b"NEGative")]
+    #[scpi(mnemonic = b"FALLing")]
+    Neg,
+    #[scpi(mnemonic = b"EITHer")]
+    Either,
+}
+#[derive(Copy, Clone, PartialEq, Debug, scpi_derive::ScpiEnum)]
+pub enum Port {
+    #[scpi(mnemonic = b"FRONt", mnemonic = b"TERMinal1", mnemonic = b"A")]
+    Front,
+    #[scpi(mnemonic = b"REAR", mnemonic = b"TERMinal2")]
+    Rear(u8),
+    #[scpi(mnemonic = b"AUXiliary3")]
+    Aux,
+}
+/// (enum name, alias mnemonic, variant index) tables + accessors for the alias enums
+pub struct AliasInfo {
+    pub name: &'static str,
+    pub aliases: &'static [(&'static [u8], usize)],
+    pub from_mnemonic: fn(&[u8]) -> Option<usize>,
+    pub try_from_token: fn(scpi::parser::tokenizer::Token) -> Result<usize, scpi::error::Error>,
+    pub mnemonic_of: fn(usize) -> &'static [u8],
+    pub format: fn(usize) -> Result<Vec<u8>, scpi::error::Error>,
+}
+fn edge_idx(e: Edge) -> usize {
+    match e {
+        Edge::Pos => 0,
+        Edge::Neg => 1,
+        Edge::Either => 2,
+    }
+}
+fn port_idx(e: Port) -> usize {
+    match e {
+        Port::Front => 0,
+        Port::Rear(_) => 1,
+        Port::Aux => 2,
+    }
+}
+const EDGES: [Edge; 3] = [Edge::Pos, Edge::Neg, Edge::Either];
+const PORTS: [Port; 3] = [Port::Front, Port::Rear(0), Port::Aux];
+pub static ALIAS_ENUMS: &[AliasInfo] = &[
+    AliasInfo {
+        name: "Edge",
+        aliases: &[(b"POSitive", 0), (b"RISing", 0), (b"NEGative", 1), (b"FALLing", 1), (b"EITHer", 2)],
+        from_mnemonic: |s| Edge::from_mnemonic(s).map(edge_idx),
+        try_from_token: |t| Edge::try_from(t).map(edge_idx),
+        mnemonic_of: |i| EDGES[i].mnemonic(),
+        format: |i| {
+            let mut out: Vec<u8> = Vec::new();
+            EDGES[i].format_response_data(&mut out)?;
+            Ok(out)
+        },
+    },
+    AliasInfo {
+        name: "Port",
+        aliases: &[(b"FRONt", 0), (b"TERMinal1", 0), (b"A", 0), (b"REAR", 1), (b"TERMinal2", 1), (b"AUXiliary3", 2)],
+        from_mnemonic: |s| Port::from_mnemonic(s).map(port_idx),
+        try_from_token: |t| Port::try_from(t).map(port_idx),
+        mnemonic_of: |i| PORTS[i].mnemonic(),
+        format: |i| {
+            let mut out: Vec<u8> = Vec::new();
+            PORTS[i].format_response_data(&mut out)?;
+            Ok(out)
+        },
+    },
+];
